@@ -93,6 +93,10 @@ def scenarios(dumps, tier, rng=None, syscfg=None):
             ("attrs", fmt, "attrs @N %s" % path),
             ("free", fmt, "free @N %s" % path),
             ("readstr", fmt, "readstr @N %s MACHPHYSADDR 0x1000" % path),
+            # strings crossing a page, read cache only (16 entries) and a two-page page cache: a
+            # reference lost by a failed call shows in the reference sums and as BUSY afterwards
+            ("readstr", fmt, "readstr @N %s MACHPHYSADDR 0x3ff0 0 never:2" % path),
+            ("readstr", fmt, "readstr @N %s MACHPHYSADDR 0x3000 0 never:1" % path),
             ("getxlat", fmt, "getxlat @N %s linux %s" % (path, ROOT)),
         ]
         if fmt == "diskdump-ia32":
